@@ -80,6 +80,10 @@ COLLISIONS = {
     "module m and module _m in one package": {"c4/__init__.py": "", "c4/_m.py": "def fa() -> int:\n    return 1\n", "c4/m/__init__.py": "", "c4/m/m.py": "def fb() -> int:\n    return 1\n"},
     "re-exported function named like a module's stub": {"c5/__init__.py": "from ._z import q\n", "c5/_z.py": "def q() -> int:\n    return 1\n", "c5/q.py": "def other() -> int:\n    return 1\n"},
     "foreign class module named like a package module": {"c6/__init__.py": "", "c6/user.py": "import collections\n\n\ndef f(a: collections.OrderedDict) -> None:\n    ...\n"},
+    "re-exported function named like its package": {"render/__init__.py": "from ._render import render\n", "render/_render.py": "def render(a: int) -> int:\n    return a\n"},
+    "re-exported declaration is a prefix of its package name": {"scales/__init__.py": "from ._impl import scale, Sc\n", "scales/_impl.py": "def scale(a: int) -> int:\n    return a\n\n\nclass Sc:\n    def m(self) -> int:\n        return 1\n", "scales/deep/__init__.py": "", "scales/deep/detail.py": "def d() -> int:\n    return 1\n"},
+    "re-exported class named like an ancestor package": {"Outer/__init__.py": "", "Outer/inner/__init__.py": "from ._m import Outer\n", "Outer/inner/_m.py": "class Outer:\n    def m(self) -> int:\n        return 1\n"},
+    "module named like its package": {"same/__init__.py": "", "same/same.py": "def same() -> int:\n    return 1\n\n\nclass Same:\n    pass\n"},
     "same class re-exported by two packages": {"c7/__init__.py": "from .p1._i import K\n", "c7/p1/__init__.py": "from ._i import K\n", "c7/p1/_i.py": "class K:\n    def k(self) -> int:\n        return 1\n"},
 }
 
@@ -87,7 +91,7 @@ COLLISIONS = {
 def run(rep: Report, tier: str, seed: int) -> None:
     specs = enumerate_trees(tier)
     rep.rule = (
-        "C03 trees (packed 120 per run) x naming conversion off/on, every output file checked; 7 collision inputs built to make two stub texts target one path;"
+        "C03 trees (packed 120 per run) x naming conversion off/on, every output file checked; 11 inputs built to collide or to confuse the path computation (two stub texts for one path, declarations named like / prefix of the re-exporting package, class named like an ancestor package, module named like its package);"
         " console-script runs over 8 spellings of source/output path (absolute, relative, trailing slash, '..', pre-existing output, output inside source's parent, source given as parent directory); distinct = distinct (tree/input label, options)"
     )
     module_names_by_tree = {s.tid: {m.split(".")[-1] for m in s.modules} for s in specs}
@@ -121,7 +125,7 @@ def run(rep: Report, tier: str, seed: int) -> None:
             if kind == "collision":
                 rep.extra["crashed_inputs(C01)"] = rep.extra.get("crashed_inputs(C01)", 0) + 1
             return
-        names = all_module_names if kind == "trees" else {Path(k).stem for k in files} | {"w", "w2", "PX"}
+        names = all_module_names if kind == "trees" else {Path(k).stem for k in files if not k.endswith("__init__.py")} | {"w", "w2", "PX"}
         for clause, f2, detail in layout_violations(obs.stubs(), obs.files, f"{PKG}__api.json", names):
             rep.violation(clause, f"{clause}:{f2}|{feat}|{'nc' if opts.convert else 'py'}", {"input": feat, **detail}, files=files if kind == "collision" else None, src_rel=PKG, opts=opts)
         if not outside:
